@@ -10,21 +10,25 @@
                        with, the wrapped parse agrees with modulo white space.
      C18_rest_parse    inside the ReST guard of C01 in addition: both parses succeed, agree with each other and
                        with the IR.
+     C18_tidy_pieces   the closed-form guard [guard_C18_rest_tidy] (summary and prose are words separated by single
+                       plain blanks, every  :param name:  /  :returns:  header fits the width, every type line fits,
+                       prose announces no default) implies the piece-wise guard: proved from a line representation
+                       of textwrap.fill on tidy text and the greediness of its first line (proofs/C18FillTidy.v).
+     C18_rest_parse_tidy  the parse-level theorem under the closed-form guard and the ReST guard of C01.
    NOT proved here:
-     - the closed-form sufficient condition (prose whose words are separated by single blanks, headers and type
-       lines that fit, no default sentence) for the piece-wise guard: [guard_C18_rest_tidy] is defined in
-       model/C18ParseSpec.v, but  guard_C18_rest_tidy w i = true -> guard_C18_rest_pieces w i = true  is only
-       evaluated per point (it needs the greedy first line of textwrap.fill, which FillFacts.seg does not record);
-     - entries whose prose carries a default sentence (Defaults to ...): the piece-wise guard asks for prose that
-       announces no default; a sentence that is split by the wrapper is a known finding class
-       (default-sentence-wrapped), a sentence that stays whole on the last line is transparent on every point
-       evaluated but not proved;
+     - default sentences: C18_rest_parse_d (below) covers a sentence  " Defaults to s"  that the wrapper leaves whole at
+       the end of the last line, after a blank (not after a line break), for emit_default_doc true and false; the
+       no-split condition is stated piece-wise (on the emitter's own strings), not in closed form; a sentence that
+       is split by the wrapper is a finding class (default-sentence-wrapped; for a TYPED parameter read with
+       emit_default_doc=False see C18_default_split_typed_witness: finding_class_C18 does not cover it);
+     - prose with runs of blanks or other white space (a double blank can become an announcement when the reader
+       re-joins the wrapped prose: witness C18_rest_parse_witnesses);
      - wrapped :type / :rtype: lines (finding class wrapped-type-line), headers that do not fit
        (param-header-wrapped), the numpydoc and Google styles (C18_nowrap covers them where nothing wraps). *)
 From Coq Require Import List.
 From Coq Require String.
 Import String.StringSyntax.
-From DT Require Import PyStr PyVal PureUtils Defaults IR Fill DocEmit C18Spec DocParse C01Spec C18ParseSpec C18Parse.
+From DT Require Import PyStr PyVal PureUtils Defaults IR Fill DocEmit C18Spec DocParse C01Spec C18ParseSpec C18Parse C18FillTidy C18ParseDflt.
 Import ListNotations.
 
 Theorem C18_rest_pieces : forall w edd i,
@@ -93,3 +97,114 @@ Example C18_rest_tidy_sample :
   /\ guard_C18_rest_tidy 22 c18_long_ir = true /\ guard_C18_rest_tidy 21 c18_long_ir = false.
 Proof. exact C18_rest_tidy_sample_lemma. Qed.
 Print Assumptions C18_rest_tidy_sample.
+
+(* ---- the closed form ---- *)
+
+(* textwrap.fill on tidy text: the lines are consecutive pieces of the text, one blank is dropped at each break *)
+Theorem C18_fill_tidy_lines : forall w s r,
+    tidy s = true -> fill w s = Ok r ->
+    exists ls, ls <> [] /\ s = join [sp] ls /\ r = join [nl] ls /\ Forall line_ok ls.
+Proof. exact fill_tidy_repr. Qed.
+Print Assumptions C18_fill_tidy_lines.
+
+(* ... and a header that fits the width stays on the first line *)
+Theorem C18_fill_first_line : forall w h D r l,
+    single_spaced (h ++ sp :: D) = true -> last_c h = Some l -> l <> sp ->
+    List.length h <= w -> fill w (h ++ sp :: D) = Ok r -> startswith h r = true.
+Proof. exact fill_first_line. Qed.
+Print Assumptions C18_fill_first_line.
+
+Theorem C18_tidy_pieces : forall w i,
+    guard_C18_rest_tidy w i = true -> guard_C18_rest_pieces w i = true.
+Proof. exact C18_tidy_pieces_lemma. Qed.
+Print Assumptions C18_tidy_pieces.
+
+Theorem C18_rest_parse_tidy : forall w edd i,
+    guard_C01_rest edd i = true -> guard_C18_rest_tidy w i = true ->
+    exists tw tu dw du,
+      emit_docstring w DocEmit.Rest true true i = Ok (tw, i)
+      /\ emit_docstring w DocEmit.Rest false true i = Ok (tu, i)
+      /\ parse_dot_docstring ng_unmodelled tw false true edd = Ok dw
+      /\ parse_dot_docstring ng_unmodelled tu false true edd = Ok du
+      /\ ir_params dw = ir_params du
+      /\ same_interface_ws false du dw = true
+      /\ same_interface edd i du = true
+      /\ same_interface_ws edd i dw = true.
+Proof. exact C18_rest_parse_tidy_lemma. Qed.
+Print Assumptions C18_rest_parse_tidy.
+
+(* three parameters and a return entry, prose several times longer than the width: inside both guards at
+   widths 22 and 30 (the longest type line has 22 characters), not inside the nothing-wraps region *)
+Example C18_rest_parse_tidy_nonvacuous :
+  guard_C18_rest_tidy 22 c18_long_ir = true /\ guard_C18_rest_tidy 30 c18_long_ir = true
+  /\ guard_C01_rest true c18_long_ir = true /\ guard_C01_rest false c18_long_ir = true
+  /\ guard_nowrap 30 DocEmit.Rest true c18_long_ir = false
+  /\ guard_C18_rest_tidy 21 c18_long_ir = false.
+Proof. exact C18_rest_parse_tidy_nonvacuous_lemma. Qed.
+Print Assumptions C18_rest_parse_tidy_nonvacuous.
+
+(* ---- default sentences that the wrapper leaves whole ---- *)
+
+(* the wider piece-wise guard contains the narrower one *)
+Theorem C18_pieces_d_of_pieces : forall w i,
+    guard_C18_rest_pieces w i = true -> guard_C18_rest_pieces_d w i = true.
+Proof. exact pieces_d_of_pieces. Qed.
+Print Assumptions C18_pieces_d_of_pieces.
+
+Theorem C18_rest_pieces_d : forall w edd i,
+    0 < w -> guard_C18_rest_pieces_d w i = true ->
+    exists tw tu,
+      emit_docstring w DocEmit.Rest true true i = Ok (tw, i)
+      /\ emit_docstring w DocEmit.Rest false true i = Ok (tu, i)
+      /\ forall du, parse_dot_docstring ng_unmodelled tu false true edd = Ok du ->
+           exists dw, parse_dot_docstring ng_unmodelled tw false true edd = Ok dw
+                      /\ ir_params dw = ir_params du
+                      /\ same_interface_ws false du dw = true
+                      /\ (forall k i0, same_interface k i0 du = true -> same_interface_ws k i0 dw = true).
+Proof. exact C18_rest_pieces_d_lemma. Qed.
+Print Assumptions C18_rest_pieces_d.
+
+Theorem C18_rest_parse_d : forall w edd i,
+    guard_C18_rest_parse_d w edd i = true ->
+    exists tw tu dw du,
+      emit_docstring w DocEmit.Rest true true i = Ok (tw, i)
+      /\ emit_docstring w DocEmit.Rest false true i = Ok (tu, i)
+      /\ parse_dot_docstring ng_unmodelled tw false true edd = Ok dw
+      /\ parse_dot_docstring ng_unmodelled tu false true edd = Ok du
+      /\ ir_params dw = ir_params du
+      /\ same_interface_ws false du dw = true
+      /\ same_interface edd i du = true
+      /\ same_interface_ws edd i dw = true.
+Proof. exact C18_rest_parse_d_lemma. Qed.
+Print Assumptions C18_rest_parse_d.
+
+Theorem C18_rest_parse_d_b : forall w edd i,
+    guard_C18_rest_parse_d w edd i = true -> C18_rest_parse_at_b w edd i = true.
+Proof. exact C18_rest_parse_d_b_lemma. Qed.
+Print Assumptions C18_rest_parse_d_b.
+
+(* an int default on a typed parameter, an untyped parameter, a str default, a return entry; the prose wraps at widths
+   30 and 50 and the sentences stay whole; at width 42 a sentence is split and the statement fails *)
+Example C18_rest_parse_d_nonvacuous :
+  guard_C18_rest_parse_d 30 true c18_dflt_ir = true /\ guard_C18_rest_parse_d 30 false c18_dflt_ir = true
+  /\ guard_C18_rest_parse_d 50 true c18_dflt_ir = true /\ guard_C18_rest_parse_d 50 false c18_dflt_ir = true
+  /\ guard_C18_rest_parse 30 true c18_dflt_ir = false
+  /\ guard_nowrap 50 DocEmit.Rest true c18_dflt_ir = false
+  /\ guard_C18_rest_parse_d 42 true c18_dflt_ir = false /\ C18_rest_parse_at_b 42 false c18_dflt_ir = false.
+Proof. exact C18_rest_parse_d_nonvacuous_lemma. Qed.
+Print Assumptions C18_rest_parse_d_nonvacuous.
+
+(* typed parameter, split default sentence, emit_default_doc=False: finding_class_C18 answers None, the default read
+   from the wrapped text has the line break and the indent inside *)
+Theorem C18_default_split_typed_witness :
+  guard_C01_rest false c18_w_default_split = true
+  /\ finding_class_C18 30 (E_docstring DocEmit.Rest) c18_w_default_split = None
+  /\ C18_rest_parse_at_b 30 false c18_w_default_split = false
+  /\ C18_rest_parse_at_b 30 true c18_w_default_split = true
+  /\ guard_C18_rest_parse_d 30 false c18_w_default_split = false
+  /\ (exists tw dw pw, emit_docstring 30 DocEmit.Rest true true c18_w_default_split = Ok (tw, c18_w_default_split)
+                       /\ parse_dot_docstring ng_unmodelled tw false true false = Ok dw
+                       /\ ir_params dw = [(L "alpha", pw)]
+                       /\ g_default pw = Some (DV (VStr (L "a b c d" ++ [nl] ++ L "    e f g h")))).
+Proof. exact C18_default_split_typed_witness_lemma. Qed.
+Print Assumptions C18_default_split_typed_witness.
